@@ -35,12 +35,13 @@ LenClause(e) ==
 (* ---- xdec: bytes e.b (a legal encoding of e.val produced by the spec's LegalEnc, or by the other implementation)
         decoded by implementation e.impl; obs = its observation; b2 = its re-encoding ---- *)
 XdecClause(e) ==
-  LET d == SpecDecode(Idx, e.ty, e.b)  want == NormMsg(e.val) IN
-  IF ~d.ok THEN <<"spec_rejects_" \o d.err, "">>
+  LET d == SpecDecode(Idx, e.ty, e.b)  want == NormMsg(e.val)  frombp == e.src = "bp" IN
+  IF e.b = <<-1>> THEN <<"encode_raises_" \o e.res, "">>
+  ELSE IF ~d.ok THEN <<(IF frombp THEN "emitted_bytes_malformed_" ELSE "spec_rejects_") \o d.err, "">>
   ELSE IF d.merged THEN <<"ok", "">>                                  \* split sub-message: outside the statement
-  ELSE IF NormMsg(d.val) # want THEN <<"spec_value", Diff(NormMsg(d.val), want)>>
-  ELSE IF e.res # "ok" THEN <<"decode_raises_" \o e.res, "">>
-  ELSE IF NormMsg(e.obs) # want THEN <<"decoded_value", Diff(NormMsg(e.obs), want)>>
+  ELSE IF NormMsg(d.val) # want THEN <<IF frombp THEN "emitted_bytes_value" ELSE "spec_value", Diff(NormMsg(d.val), want)>>
+  ELSE IF e.res # "ok" THEN <<(IF e.impl = "bp" THEN "decode_raises_" ELSE "ref_decode_raises_") \o e.res, "">>
+  ELSE IF NormMsg(e.obs) # want THEN <<IF e.impl = "bp" THEN "decoded_value" ELSE "ref_decoded_value", Diff(NormMsg(e.obs), want)>>
   ELSE <<"ok", "">>
 
 (* ---- evo: schema evolution.  e.val of the newer type e.ty was serialised (e.b); an older reader e.oty parsed it
@@ -59,6 +60,7 @@ EvoClause(e) ==
     ELSE IF NormMsg(dre.val) # NormMsg(dold.val) THEN <<"reemission_known_fields", Diff(NormMsg(dre.val), NormMsg(dold.val))>>
     ELSE IF NormMsg(e.obs_new) # want THEN <<"new_reader_after_old_writer", Diff(NormMsg(e.obs_new), want)>>
     ELSE IF NormMsg(e.obs_ref) # want THEN <<"reference_reads_reemission", Diff(NormMsg(e.obs_ref), want)>>
+    ELSE IF e.stream # "ok" THEN <<"older_reader_on_delimited_stream_" \o e.stream, "">>
     ELSE <<"ok", "">>
 
 (* ---- unk: a LegalEnc encoding e.b of e.val with interleaved unknown fields (raw bytes e.unk, arrival order):
